@@ -38,6 +38,10 @@ type lockSpec struct {
 	// e.g. "meta.AddMetricsMetaEntry", "ms.mBlock.dpWalState.dpWal.DeleteWAL") or "callee:" + the full name of
 	// its static callee equals one of the label's patterns.  A tracked call is a leaf: it is not inlined.
 	Track []trackSpec `json:"track"`
+	// guardtrace mode (coq/gen/GenGuard.v): every read or write of the listed package-level variables / struct
+	// fields (named like the lock objects: "pkg.name", "pkg.Type.field") becomes an event (KCall, label); the lock
+	// operations are KEPT, so that an obligation can say "accessed only while the goroutine holds lock L".
+	Access []string `json:"access"`
 }
 
 type trackSpec struct {
@@ -67,6 +71,7 @@ type lctx struct {
 	track    map[string]int // pattern -> label id (calltrace mode)
 	hits     map[int]int    // label id -> number of call sites matched
 	seenSite map[token.Pos]bool
+	access   map[string]int // variable / field name -> label id (guardtrace mode)
 }
 
 type goBody struct {
@@ -258,6 +263,24 @@ func (c *lctx) exprEv(st *fstate, e ast.Expr) string {
 				out = seq(out, c.exprEv(st, sel.X))
 			}
 			return false
+		case *ast.SelectorExpr:
+			if c.access != nil {
+				if sel, ok := st.f.info.Selections[x]; ok && sel.Kind() == types.FieldVal {
+					if id, ok := c.access[shortType(sel.Recv())+"."+x.Sel.Name]; ok {
+						c.hits[id]++
+						out = seq(out, fmt.Sprintf("(SEv KCall %d)", id))
+					}
+				}
+			}
+		case *ast.Ident:
+			if c.access != nil {
+				if o, ok := st.f.info.Uses[x].(*types.Var); ok && !o.IsField() && o.Pkg() != nil && o.Parent() == o.Pkg().Scope() {
+					if id, ok := c.access[o.Pkg().Name()+"."+o.Name()]; ok {
+						c.hits[id]++
+						out = seq(out, fmt.Sprintf("(SEv KCall %d)", id))
+					}
+				}
+			}
 		case *ast.UnaryExpr:
 			if x.Op == token.ARROW {
 				out = seq(out, c.exprEv(st, x.X))
@@ -372,6 +395,11 @@ func (c *lctx) stmt(st *fstate, s ast.Stmt) string {
 		for _, r := range x.Rhs {
 			out = seq(out, c.exprEv(st, r))
 		}
+		if c.access != nil { // writes count as accesses
+			for _, l := range x.Lhs {
+				out = seq(out, c.exprEv(st, l))
+			}
+		}
 		return out
 	case *ast.DeclStmt:
 		out := "SSkip"
@@ -385,7 +413,12 @@ func (c *lctx) stmt(st *fstate, s ast.Stmt) string {
 			}
 		}
 		return out
-	case *ast.IncDecStmt, *ast.EmptyStmt:
+	case *ast.IncDecStmt:
+		if c.access != nil {
+			return c.exprEv(st, x.X)
+		}
+		return "SSkip"
+	case *ast.EmptyStmt:
 		return "SSkip"
 	case *ast.GoStmt:
 		// a new goroutine holds none of the caller's locks; its arguments are evaluated here
@@ -541,6 +574,12 @@ func runLockTrace(repo string, spec lockSpec, out string) {
 			}
 		}
 	}
+	if len(spec.Access) > 0 {
+		c.prefix, c.access, c.hits = "gb_", map[string]int{}, map[int]int{}
+		for i, a := range spec.Access {
+			c.access[a] = i
+		}
+	}
 	if spec.Depth == 0 {
 		spec.Depth = 4
 	}
@@ -597,6 +636,9 @@ func runLockTrace(repo string, spec lockSpec, out string) {
 	mode := "locktrace"
 	if c.track != nil {
 		mode = "calltrace"
+	}
+	if c.access != nil {
+		mode = "guardtrace"
 	}
 	sb.WriteString("(* GENERATED by gotrans (" + mode + ") from " + repo + " on every run. Do not edit, do not commit. *)\n")
 	sb.WriteString("From Coq Require Import NArith List String.\nFrom SigM Require Import LockTrace.\nImport ListNotations.\nOpen Scope N_scope.\nOpen Scope string_scope.\n\n")
@@ -683,7 +725,17 @@ func runLockTrace(repo string, spec lockSpec, out string) {
 		}
 		sb.WriteString("].\n\n")
 	} else {
-		sb.WriteString("(* object names *)\nDefinition lk_objects : list (N * string) :=\n  [")
+		if c.access != nil {
+			sb.WriteString("(* labels of the watched variables / fields, with the number of accesses seen (all depths) *)\nDefinition gb_labels : list (N * string * N) :=\n  [")
+			for i, a := range spec.Access {
+				if i > 0 {
+					sb.WriteString(";\n   ")
+				}
+				sb.WriteString(fmt.Sprintf("(%d, \"%s\", %d)", i, a, c.hits[i]))
+			}
+			sb.WriteString("].\n\n")
+		}
+		sb.WriteString("(* object names *)\nDefinition " + c.prefix + "objects : list (N * string) :=\n  [")
 		for i, n := range c.objList {
 			if i > 0 {
 				sb.WriteString(";\n   ")
